@@ -20,6 +20,8 @@ LEDGER_MODELS = [
 VENUE_MODELS = [
     {"name": "venue", "module": "MC_Venue.tla", "cfg": {"quick": "MC_VenueQuick.cfg", "thorough": "MC_VenueThorough.cfg"},
      "setup": "setups/venue.json", "init_from_setup": True, "timeout": {"quick": 900, "thorough": 7200}},
+    {"name": "venuesolend", "module": "MC_Venue.tla", "cfg": {"quick": "MC_VenueSolendQuick.cfg", "thorough": "MC_VenueSolendThorough.cfg"},
+     "setup": "setups/venuesolend.json", "init_from_setup": True, "timeout": {"quick": 900, "thorough": 7200}},
     {"name": "venuedrift", "module": "MC_Venue.tla", "cfg": {"quick": "MC_VenueDriftQuick.cfg", "thorough": "MC_VenueDriftThorough.cfg"},
      "setup": "setups/venuedrift.json", "init_from_setup": True, "timeout": {"quick": 900, "thorough": 7200}},
 ]
@@ -61,7 +63,8 @@ def risk_prop(ops):
 
 LIQ_DRIVERS = [{"name": "liq", "args": {"quick": [300], "thorough": [6000]}}]
 STAKED_DRIVERS = [{"name": "staked", "args": {"quick": [40], "thorough": [2000]}}]
-KAMINO_DRIVERS = [{"name": "kamino", "args": {"quick": [30], "thorough": [1500]}}, {"name": "drift", "args": {"quick": [30], "thorough": [1500]}}]
+KAMINO_DRIVERS = [{"name": "kamino", "args": {"quick": [30], "thorough": [1500]}}, {"name": "drift", "args": {"quick": [30], "thorough": [1500]}},
+                  {"name": "solend", "args": {"quick": [30], "thorough": [1500]}}]
 GATE_MODELS = [
     {"name": "gate", "module": "Gate.tla", "cfg": {"quick": "MC_GateQuick.cfg", "thorough": "MC_GateThorough.cfg"}, "setup": "setups/gate.json"},
 ]
@@ -165,16 +168,16 @@ PROPS = {
         "rule": "each matrix cell (instruction x variant: unmodified, signer identity, missing signature, slot x foreign object; normal and frozen account; every role-gated instruction x identity after every re-assignment of a group role) executed through marginfi::entry is one evaluation, so is every role assignment and every instruction executed with a substituted price account; all are non-trivial; distinct by (cell, variant, identity, substitution, mode, result)",
         "min_nontrivial": 500,
     },
-    "C04": dict(risk_prop(["borrow", "withdraw", "kamino_withdraw", "drift_withdraw", "tx"]), drivers=RISK_DRIVERS + LEDGER_DRIVERS + STAKED_DRIVERS + KAMINO_DRIVERS),
+    "C04": dict(risk_prop(["borrow", "withdraw", "kamino_withdraw", "drift_withdraw", "solend_withdraw", "tx"]), drivers=RISK_DRIVERS + LEDGER_DRIVERS + STAKED_DRIVERS + KAMINO_DRIVERS),
     "C05": risk_prop2(["liquidate"], LIQ_DRIVERS + LEDGER_DRIVERS + STAKED_DRIVERS, models=RISK_MODELS),
     "C07": risk_prop2(["bankruptcy"], LIQ_DRIVERS + LEDGER_DRIVERS, models=RISK_MODELS),
     "C09": risk_prop2(["borrow", "withdraw", "liquidate", "bankruptcy", "pulse_health"], LIQ_DRIVERS + RISK_DRIVERS + LEDGER_DRIVERS + STAKED_DRIVERS + KAMINO_DRIVERS, models=RISK_MODELS + ORACLE_MODELS),
-    "C13": risk_prop2(["add_bank", "add_bank_staked", "add_bank_kamino", "add_bank_drift", "init_staked_settings", "edit_staked_settings", "propagate_staked", "configure_bank", "configure_emode", "borrow", "withdraw", "pulse_health", "bankruptcy", "clone_emode"],
+    "C13": risk_prop2(["add_bank", "add_bank_staked", "add_bank_kamino", "add_bank_drift", "add_bank_solend", "init_staked_settings", "edit_staked_settings", "propagate_staked", "configure_bank", "configure_emode", "borrow", "withdraw", "pulse_health", "bankruptcy", "clone_emode"],
                       LIQ_DRIVERS + RISK_DRIVERS + ADMIN_DRIVERS + STAKED_DRIVERS + KAMINO_DRIVERS, models=RISK_MODELS + CONFIG_MODELS),
     "C14": risk_prop2(["deposit", "withdraw", "borrow", "repay", "liquidate", "bankruptcy", "propagate_fee"], LIQ_DRIVERS + RISK_DRIVERS, models=GATE_MODELS),
     "C01": ledger_prop(),
-    "C02": dict(ledger_prop(extra_ops=["purge", "transfer_account", "kamino_deposit", "kamino_withdraw", "drift_deposit", "drift_withdraw"]), drivers=LEDGER_DRIVERS + LIQ_DRIVERS + ADMIN_DRIVERS + KAMINO_DRIVERS, models=LEDGER_MODELS + VENUE_MODELS),
-    "C03": dict(ledger_prop(extra_ops=["kamino_deposit", "kamino_withdraw", "drift_deposit", "drift_withdraw"]), drivers=LEDGER_DRIVERS + KAMINO_DRIVERS, models=LEDGER_MODELS + VENUE_MODELS),
+    "C02": dict(ledger_prop(extra_ops=["purge", "transfer_account", "kamino_deposit", "kamino_withdraw", "drift_deposit", "drift_withdraw", "solend_deposit", "solend_withdraw"]), drivers=LEDGER_DRIVERS + LIQ_DRIVERS + ADMIN_DRIVERS + KAMINO_DRIVERS, models=LEDGER_MODELS + VENUE_MODELS),
+    "C03": dict(ledger_prop(extra_ops=["kamino_deposit", "kamino_withdraw", "drift_deposit", "drift_withdraw", "solend_deposit", "solend_withdraw"]), drivers=LEDGER_DRIVERS + KAMINO_DRIVERS, models=LEDGER_MODELS + VENUE_MODELS),
     "C06": dict(ledger_prop(), drivers=LEDGER_DRIVERS + [{"name": "caps", "args": {"quick": [200], "thorough": [4000]}}]),
     "C16": dict(ledger_prop(), drivers=LEDGER_DRIVERS + [{"name": "struct", "args": {"quick": [60], "thorough": [2000]}}] + LIQ_DRIVERS + STAKED_DRIVERS + ADMIN_DRIVERS + KAMINO_DRIVERS),
     "C17": dict(ledger_prop(), drivers=LEDGER_DRIVERS + [{"name": "caps", "args": {"quick": [300], "thorough": [8000]}}]),
